@@ -31,6 +31,9 @@ def check(ctx, rep):
     prog = ctx.prog
     rep.rule("R-TABLE", "resolution table of MapFuture._delegate_resolved (helpers inlined) per class and stage: user functions called (which, how often, with what) and the resulting outcome for each delegate outcome x error_fn behaviour x map_fn behaviour x on_mapped behaviour")
     rep.rule("R-DEFAULT", "an omitted map function is the identity (f_return for flat_map); an omitted error function means the delegate's exception is propagated as is")
+    rep.rule("R-EXC-SAME", "a failure travels through the copy helpers as the same, unchanged exception object: nothing on the way calls with_traceback()/add_note() on it or stores into its attributes (its traceback stays the one it was raised with)")
+    from .c01 import exc_untouched_rule
+    exc_untouched_rule(ctx, rep, "R-EXC-SAME")
     rep.rule("R-PLUMB", "fn / error_fn given to MapExecutor, FlatMapExecutor, f_map and f_flat_map reach the future's map / error function fields unchanged, and the future is built on the delegate's future of the same submission")
     from ..roles import map_roles
     M = MR[0] = map_roles(ctx)
